@@ -35,6 +35,10 @@ def request_corpus():
         bytes([7]), bytes([8, 0, 0, 0x12, 0x34]), bytes([8, 0, 2, 0, 0]), bytes([8, 0, 0x0A, 0, 0]), bytes([11]), bytes([12]), bytes([17]),
         bytes([20, 7, 6, 0, 4, 0, 1, 0, 2]), bytes([21, 9, 6, 0, 4, 0, 7, 0, 1, 0x06, 0xAF]),
         bytes([24, 4, 0xDE]), bytes([43, 14, 1, 0]), bytes([43, 14, 4, 0x81]),
+        # two file sub-requests each; the remaining diagnostic sub-functions
+        bytes([20, 14, 6, 0, 4, 0, 1, 0, 2, 6, 0, 3, 0, 9, 0, 2]),
+        bytes([21, 13, 6, 0, 4, 0, 7, 0, 3, 0x06, 0xAF, 0x04, 0xBE, 0x10, 0x0D]),
+        bytes([8, 0, 1, 0xFF, 0]), bytes([8, 0, 4, 0, 0]), bytes([8, 0, 0x15, 0, 3]), bytes([8, 0, 0x15, 0, 4]),
     ]
     return out
 
@@ -53,6 +57,13 @@ def response_corpus():
         bytes([20, 6, 5, 6, 0x0D, 0xFE, 0, 0x20]), bytes([21, 9, 6, 0, 4, 0, 7, 0, 1, 0x06, 0xAF]),
         bytes([24, 0, 6, 0, 2, 1, 0xB8, 0x12, 0x84]),
         bytes([43, 14, 1, 1, 0, 0, 1, 0, 3, 0x41, 0x42, 0x43]),
+        # 08/21 get statistics (byte count + 54 words), device identification with three objects and
+        # "more follows", a full FIFO (31 registers), an event log with 64 events, two file sub-responses
+        bytes([8, 0, 0x15, 0, 3, 0, 108]) + bytes((i * 5 + 1) & 0xFF for i in range(108)),
+        bytes([43, 14, 2, 0x82, 0xFF, 6, 3, 3, 2, 0x31, 0x32, 4, 5, 0x61, 0x62, 0x63, 0x64, 0x65, 5, 1, 0x5A]),
+        bytes([24, 0, 64, 0, 31]) + b''.join(bytes([1 + i, 0x80 | i]) for i in range(31)),
+        bytes([12, 70, 0, 0, 1, 8, 1, 0x21]) + bytes((0x20 + i) & 0xFF for i in range(64)),
+        bytes([20, 12, 5, 6, 0x0D, 0xFE, 0, 0x20, 5, 6, 0x33, 0xCD, 0, 0x40]),
     ]
     return out
 
